@@ -252,7 +252,8 @@ DatePars == { [kind |-> "Date", ext |-> e, fmts |-> f, cand |-> c] : e \in DateE
 IPCtxPars == { [kind |-> "IPctx", ext |-> FALSE, v6 |-> a[1], addr |-> a[2], l |-> l, r |-> r] : a \in IPAddrs, l \in IPCtxs, r \in IPCtxs }
 DecCtxPars == { q \in { [kind |-> "DecCtx", ext |-> FALSE, base |-> p, mid |-> m, l |-> l, r |-> r] :
                            p \in DecBasePars, m \in DecMids, l \in DecCtxs, r \in DecCtxs } : DecExact(q.base, q.mid) }
-Init == \/ /\ par \in TextPars /\ txt = <<>> /\ res = Expect(par, <<>>)
+\* par.seeds: texts given with the parameters (long candidates beyond MaxLen: many-digit numerals, long words, long fractions)
+Init == \/ /\ par \in TextPars /\ txt \in ({<<>>} \cup par.seeds) /\ res = Expect(par, txt)
         \/ /\ par \in DecCtxPars /\ txt = par.l \o par.mid \o par.r /\ res = Expect(par, par.l \o par.mid \o par.r)
         \/ /\ par \in IPCtxPars /\ txt = par.l \o par.addr \o par.r /\ res = Expect(par, par.l \o par.addr \o par.r)
         \/ /\ par \in DatePars /\ txt = DateText(par.cand) /\ res = Expect(par, DateText(par.cand))
